@@ -54,7 +54,7 @@ type vbCall struct {
 
 // vbCustomErr is a backend-specific error that only MapCustomBroadcastError
 // turns into a BroadcastError.
-type vbCustomErr struct{ code BroadcastErrorCode }
+type vbCustomErr struct{ code vbErrCode }
 
 func (e *vbCustomErr) Error() string { return fmt.Sprintf("backend error %d", e.code) }
 
@@ -74,9 +74,11 @@ type vbSUT struct {
 	par    [][]int
 	txs    []*wire.MsgTx
 	hashes []chainhash.Hash
+	ext    []wire.OutPoint // ext[i-1]: the input of tx i that spends nothing of ours
 	idx    map[chainhash.Hash]int
 
-	b     *Broadcaster
+	b     *vbBroadcaster
+	env   vbEnv // package-specific part (rescan slice in package neutrino)
 	calls chan *vbCall
 	ntf   chan blockntfns.BlockNtfn
 	pendH []*vbCall
@@ -93,6 +95,7 @@ type vbSUT struct {
 	stp    int // 0 not called, 1 outstanding, 3 returned
 	stHung bool
 	stDone chan struct{}
+	relBad atomic.Bool // extractBlockMatches disagreed with the relevance class
 
 	t0     time.Time
 	dumped bool
@@ -145,9 +148,12 @@ func (s *vbSUT) Start(initObs json.RawMessage) error {
 		for _, in := range ins {
 			tx.AddTxIn(in)
 		}
+		// a P2WPKH script (the rescan slice watches it as an address)
 		pk := make([]byte, 22)
 		s.rng.Read(pk)
+		pk[0], pk[1] = 0x00, 0x14
 		tx.AddTxOut(wire.NewTxOut(int64(1000+s.rng.Intn(100000)), pk))
+		s.ext = append(s.ext, *wire.NewOutPoint(&ext, uint32(i)))
 		s.txs[i] = tx
 		s.hashes[i] = tx.TxHash()
 		s.idx[s.hashes[i]] = i
@@ -158,7 +164,7 @@ func (s *vbSUT) Start(initObs json.RawMessage) error {
 	s.bcDone = make(chan int, 4)
 	s.mkDone = make(chan struct{}, 4)
 	s.stDone = make(chan struct{}, 4)
-	s.b = NewBroadcaster(&Config{
+	s.b = vbNewBroadcaster(&vbConfig{
 		Broadcast: func(tx *wire.MsgTx) error {
 			c := &vbCall{tx: s.idx[tx.TxHash()], src: vbOrigin(), resp: make(chan error)}
 			s.calls <- c
@@ -170,7 +176,7 @@ func (s *vbSUT) Start(initObs json.RawMessage) error {
 		RebroadcastInterval: vbInterval,
 		MapCustomBroadcastError: func(err error) error {
 			if ce, ok := err.(*vbCustomErr); ok {
-				return &BroadcastError{Code: ce.code, Reason: ce.Error()}
+				return &vbBroadcastError{Code: ce.code, Reason: ce.Error()}
 			}
 			return err
 		},
@@ -351,16 +357,16 @@ func (s *vbSUT) outcome(out string) error {
 	case "plain":
 		return errors.New("connection reset by peer")
 	case "xmempool":
-		return &vbCustomErr{code: Mempool}
+		return &vbCustomErr{code: vbMempool}
 	case "xconfirmed":
-		return &vbCustomErr{code: Confirmed}
+		return &vbCustomErr{code: vbConfirmed}
 	}
 	sp, ok := vbSpellings[out]
 	if !ok {
 		panic("unknown outcome " + out)
 	}
 	m := sp[s.rng.Intn(len(sp))]
-	return ParseBroadcastError(&m, "10.0.0.1:8333")
+	return vbParseBroadcastError(&m, "10.0.0.1:8333")
 }
 
 func vbInt(v interface{}) int {
@@ -394,7 +400,7 @@ func (s *vbSUT) Step(act map[string]interface{}) (map[string]interface{}, interf
 			switch {
 			case err == nil:
 				done <- 1
-			case err == ErrBroadcasterStopped:
+			case err == vbErrStopped:
 				done <- 3
 			default:
 				done <- 2
@@ -428,6 +434,23 @@ func (s *vbSUT) Step(act map[string]interface{}) (map[string]interface{}, interf
 		done := s.mkDone
 		go func() {
 			s.b.MarkAsConfirmed(h)
+			done <- struct{}{}
+		}()
+	case "Mined":
+		// The rescan finds tx in a block; out = why the tx is relevant to
+		// it (spend / pay / both / neither).  Real extractBlockMatches.
+		if s.mkOut || tx < 1 || tx >= len(s.txs) || !s.env.canMine() {
+			skipped = true
+			break
+		}
+		s.mkOut, s.mkHung = true, false
+		done := s.mkDone
+		call := s.env.mined(s, tx, out)
+		want := out != "neither"
+		go func() {
+			if got, err := call(); err != nil || got != want {
+				s.relBad.Store(true)
+			}
 			done <- struct{}{}
 		}()
 	case "Block":
@@ -477,8 +500,11 @@ func (s *vbSUT) Step(act map[string]interface{}) (map[string]interface{}, interf
 		default:
 			res = "err"
 		}
-	case op == "MarkCall":
+	case op == "MarkCall" || op == "Mined":
 		res = [...]string{"ok", "pending", "hung"}[o.Mk]
+		if s.relBad.Load() {
+			res = "relevance-mismatch"
+		}
 	case op == "Stop":
 		res = map[int]string{3: "ok", 1: "pending", 2: "hung", 0: "skipped"}[o.Stp]
 	case op == "Block":
@@ -529,14 +555,9 @@ func (s *vbSUT) Close() {
 		}
 		s.pendH, s.pendR = nil, nil
 		// A caller stuck in a plain send on confChan / broadcastReqs
-		// can only be released by taking its message.
-		select {
-		case <-s.b.confChan:
+		// can only be released by taking its message (in-package only).
+		if vbDrain(s.b) {
 			progress = true
-		case r := <-s.b.broadcastReqs:
-			r.errChan <- ErrBroadcasterStopped
-			progress = true
-		default:
 		}
 		if !progress && !s.bcOut && !s.mkOut && s.stp == 3 {
 			return
@@ -553,6 +574,8 @@ func vbCtl(act map[string]interface{}) string {
 	switch op {
 	case "BcastCall", "MarkCall":
 		return fmt.Sprintf("%s/%d", op, vbInt(act["tx"]))
+	case "Mined":
+		return fmt.Sprintf("%s/%d/%s", op, vbInt(act["tx"]), out)
 	case "HRelease", "RbRelease":
 		return op + "/" + out
 	}
@@ -574,6 +597,6 @@ func TestVerifBroadcasterReplay(t *testing.T) {
 			}()
 			synctest.Test(t, func(*testing.T) { body() })
 		},
-		newSUT: func(rng *rand.Rand) vwSUT { return &vbSUT{rng: rng} },
+		newSUT: func(rng *rand.Rand) vwSUT { return &vbSUT{rng: rng, env: vbNewEnv()} },
 	})
 }
